@@ -146,6 +146,18 @@ Definition keeper_remove (s : clp_state) (signer asset : Z) (pl : pool) (we wn :
   if lft =? 0 then Ok (del_lp s2 asset signer)
   else Ok (set_lp s2 asset signer (l <| lp_units := lft |> <| lp_last := cs_height s |>)).
 
+(* ---- pools enabled for margin trading: a removal that would leave the pool's health below the removal-queue threshold
+   is refused (ErrRemovalsBlockedByHealth), or queued and answered with ErrQueued — an error, so the delivered
+   transaction keeps none of its writes either way. margin CalculatePoolHealth: 0 if a side has neither balance nor
+   liabilities, else balance/(balance+liabilities) of the one side times that of the other, in Dec arithmetic. ---- *)
+Definition pool_health (nb nl eb el : Z) : Z :=
+  if ((eb + el) =? 0) || ((nb + nl) =? 0) then 0
+  else dec_mul (dec_quo (dec_of_int eb) (dec_of_int (eb + el))) (dec_quo (dec_of_int nb) (dec_of_int (nb + nl))).
+Definition health_gate (ps : clp_params) (asset : Z) (pl' : pool) : Outcome unit :=
+  if existsb (Z.eqb asset) (cp_margin ps)
+  then require (negb (pool_health (p_nb pl') (p_nl pl') (p_eb pl') (p_el pl') <? cp_rq_threshold ps))
+  else Ok tt.
+
 (* ---- RemoveLiquidity (basis points) ---- *)
 Definition remove_liquidity (s : clp_state) (signer asset wbasis asym : Z) : Outcome clp_state :=
   let ps := cs_params s in
@@ -166,6 +178,7 @@ Definition remove_liquidity (s : clp_state) (signer asset wbasis asym : Z) : Out
   t <- uint_sub (p_units pl) (lp_units l) ;; units' <- uint_add t lft ;;
   nb' <- uint_sub (p_nb pl) wn ;; eb' <- uint_sub (p_eb pl) we ;;
   let pl' := pl <| p_units := units' |> <| p_nb := nb' |> <| p_eb := eb' |> in
+  _ <- health_gate ps asset pl' ;;
   keeper_remove s2 signer asset pl' we wn (l <| lp_unlocks := us_caller |>) lft ed nd.
 
 (* ---- RemoveLiquidityUnits ---- *)
@@ -186,6 +199,7 @@ Definition remove_liquidity_units (s : clp_state) (signer asset wunits : Z) : Ou
   t <- uint_sub (p_units pl) (lp_units l) ;; units' <- uint_add t lft ;;
   nb' <- uint_sub (p_nb pl) wn ;; eb' <- uint_sub (p_eb pl) we ;;
   let pl' := pl <| p_units := units' |> <| p_nb := nb' |> <| p_eb := eb' |> in
+  _ <- health_gate ps asset pl' ;;
   keeper_remove s2 signer asset pl' we wn (l <| lp_unlocks := us_caller |>) lft ed nd.
 
 (* ---- Swap ---- *)
